@@ -135,3 +135,24 @@ func init() {
 	c17.Stages = append(c17.Stages, stage{Name: "negation-and-included-tax", Harness: `^H_C17_(Invert|RemoveIncluded)`, Subst: numSummaries, Needs: []string{"L0"}, ThoroughOnly: true, BudgetS: 100})
 	reg(c17)
 }
+
+func init() {
+	reg(&propCfg{
+		ID:      "C09",
+		Pkgs:    []string{"head", "."},
+		Lenient: []string{"head", "cbc", "dsig", "uuid", "."},
+		Stages: []stage{
+			{Name: "header-relation", Harness: `^H_C09_Contains`},
+			{Name: "verification", Harness: `^H_C09_(Verify|Cli)`},
+		},
+		Functions: []string{"head.(*Header).Contains", "gobl.(*Envelope).Verify", "gobl.(*Envelope).verifySignature", "gobl.(*Envelope).VerifySignature", "dsig.(*Digest).String"},
+		Stubs: []string{"JWS contract (symbolic runs): Signature.VerifyPayload(k, out) succeeds iff k is the signing key and then fills out with the header as signed; UnsafePayload fills it unconditionally; native replays use real ES256 keys and signatures",
+			"fmt.Sprintf: Go model"},
+		Bounds: map[string][]string{
+			"quick":    {"envelope header with <= 2 stamps/links/tags, optional meta entry, notes, digest; signed header with <= 1 of each; every string one byte over {a,b} (all equal/different patterns)", "verification: 1..2 keys supplied, signer among them or not"},
+			"thorough": {"<= 3 / <= 2 entries respectively"},
+		},
+		Outside:     []string{"ES256 / JOSE themselves", "JSON / YAML parsing of envelopes"},
+		Assumptions: []string{"JWS contract as documented by go-jose: verification with the signing key returns the signed payload, any other key fails"},
+	})
+}
